@@ -46,6 +46,10 @@ void f_sched(void) {
       if (!anyrun) break; }      /* stuck: judged after the loop (no inner loop here: the slice loop must stay loop 1 for --unwindset) */
     uint8_t t = nondet_u8(); __CPROVER_assume(t < NT && st[t] != 0);
     int r;   /* a blocked thread is chosen only to let its deadline expire */
+#ifdef VERIF_SHARED_ERRNO
+    /* errno belongs to the vCPU: whatever ran in between may have changed it, so it is arbitrary whenever another thread gets the processor */
+    { static int last = -1; extern int verif_errno_v[]; int nondet_int(void); if (t != last) verif_errno_v[0] = nondet_int(); last = t; }
+#endif
     /* thread id and instance are constants inside each branch: CURRENT, the frame and the thread object stay concrete
        pointers for the symbolic execution (a symbolic index made the same query 40x slower, DESIGN 2.4) */
     if (t == 0) { f_K_try_unblock(0); if (f_K_is_blocked(0)) __CPROVER_assume(f_K_timeout_event(0)); verif_os_tid = 0; r = run_f_thread_entry_0(0); st[0] = r; }
